@@ -1,6 +1,7 @@
 package main
 
 import (
+	"sort"
 	"go/constant"
 	"go/ast"
 	"go/token"
@@ -1115,75 +1116,216 @@ func c11StalenessIn(c *Check, rule string, rels []string) {
 
 
 // c11AddrKey: the address argument of a TakeMsg / ReleaseMsg call is the peer's IP exactly when the connection has a
-// TCP address (the type assertion on ConnState.RemoteAddr succeeded, connection and address present), and the
-// loopback stand-in otherwise. Accepts `local.IP` (local defined by the assertion, overwritten by the stand-in)
-// and `addr` (initialised with the stand-in, overwritten by `tcp.IP`).
+// TCP address, and the loopback stand-in otherwise. Decided by a small abstract evaluation of the argument in three
+// model worlds – "TCP peer" (every *net.TCPAddr assertion on a net.Addr succeeds, connection and address present),
+// "other peer" (the assertion fails), "no address" (connection or address nil, assertion fails) – over reaching
+// definitions, through local aliases and through helper functions of the package (each return evaluated).
 func c11AddrKey(r *RuleCtx, cp Pt, arg ast.Expr) string {
-	info := r.Info
-	// the assertion `v, ok := <…>.RemoteAddr.(*net.TCPAddr)`
-	var tcpVar, okVar types.Object
-	ast.Inspect(r.FI.Decl.Body, func(n ast.Node) bool {
-		if as, isAs := n.(*ast.AssignStmt); isAs && len(as.Lhs) == 2 && len(as.Rhs) == 1 {
-			if ta, isTA := ast.Unparen(as.Rhs[0]).(*ast.TypeAssertExpr); isTA && isField(info, ta.X, "ConnState", "RemoteAddr") {
-				tcpVar, okVar = objOf(info, as.Lhs[0]), objOf(info, as.Lhs[1])
+	want := []struct {
+		name           string
+		okV, present   bool
+		expect, gotMsg string
+	}{
+		{"a TCP peer", true, true, "peer", "the per-IP limit is applied to, or released for, somebody else"},
+		{"a peer without a TCP address", false, true, "standin", "the value of a failed assertion is used (nil address) or the peer is mis-keyed"},
+		{"a message without a connection address", false, false, "standin", "an absent address is dereferenced or mis-keyed"},
+	}
+	for _, w := range want {
+		got := c11AbsAddr(r, cp, arg, w.okV, w.present, 0)
+		if len(got) != 1 || !got[w.expect] {
+			var l []string
+			for k := range got {
+				l = append(l, k)
 			}
-		}
-		return true
-	})
-	if tcpVar == nil || okVar == nil {
-		return "the address key is not taken from the connection's remote address"
-	}
-	// worlds: ok / presence of the connection and of its address
-	world := func(okV, present bool) func(b *cfgBlock, i int) bool {
-		return r.F.World(func(atom ast.Expr) (bool, bool) {
-			if objOf(info, atom) == okVar {
-				return okV, true
-			}
-			if be, isBin := ast.Unparen(atom).(*ast.BinaryExpr); isBin && (be.Op == token.EQL || be.Op == token.NEQ) && isNilIdent(info, be.Y) {
-				if isField(info, be.X, "ConnState", "RemoteAddr") || isField(info, be.X, "MsgMetadata", "Conn") {
-					return (be.Op == token.NEQ) == present, true
-				}
-			}
-			return false, false
-		})
-	}
-	isPeerIP := func(e ast.Expr) bool {
-		sel, ok := ast.Unparen(e).(*ast.SelectorExpr)
-		return ok && sel.Sel.Name == "IP" && objOf(info, sel.X) == tcpVar
-	}
-	arg = ast.Unparen(arg)
-	if sel, ok := arg.(*ast.SelectorExpr); ok && sel.Sel.Name == "IP" {
-		base := objOf(info, sel.X)
-		if base != tcpVar {
-			return "the address key is not the asserted TCP address"
-		}
-		dT, okT := r.ReachingDefs(base, cp, world(true, true))
-		dF, okF := r.ReachingDefs(base, cp, world(false, true))
-		switch {
-		case okT || len(dT) != 0:
-			return "for a TCP peer the address key is not the peer's address (another definition reaches the limiter call): the per-IP limit is applied to, or released for, somebody else"
-		case !okF || len(dF) != 1:
-			return "for a peer without a TCP address the address key is not the stand-in (a nil address is dereferenced)"
-		}
-		return ""
-	}
-	o := objOf(info, arg)
-	if o == nil {
-		return "undecided: the address argument is neither <local>.IP nor a local variable"
-	}
-	dT, okT := r.ReachingDefs(o, cp, world(true, true))
-	if !okT || len(dT) != 1 || !isPeerIP(dT[0]) {
-		return "for a TCP peer the address key is not the peer's address: the per-IP limit is applied to, or released for, somebody else"
-	}
-	for _, w := range []func(b *cfgBlock, i int) bool{world(false, true), world(true, false)} {
-		dF, okF := r.ReachingDefs(o, cp, w)
-		if !okF || len(dF) != 1 || isPeerIP(dF[0]) {
-			return "for a peer without a TCP address the address key is not the stand-in (the value of a failed assertion / absent connection is used)"
+			sort.Strings(l)
+			return "for " + w.name + " the address key evaluates to {" + strings.Join(l, ",") + "}, expected " + w.expect + ": " + w.gotMsg
 		}
 	}
 	return ""
 }
 
+func c11IsTCPAssert(info *types.Info, e ast.Expr) bool {
+	ta, ok := ast.Unparen(e).(*ast.TypeAssertExpr)
+	if !ok || ta.Type == nil {
+		return false
+	}
+	pt, ok := info.TypeOf(ta.Type).(*types.Pointer)
+	if !ok || !typeIs(pt.Elem(), "net", "TCPAddr") {
+		return false
+	}
+	if typeIs(info.TypeOf(ta.X), "net", "Addr") {
+		if fv := fieldOf(info, ta.X); fv != nil && objName(fv) == "LocalAddr" {
+			return false
+		}
+		return true
+	}
+	return false
+}
+
+func c11AddrWorld(r *RuleCtx, okV, present bool) func(b *cfgBlock, i int) bool {
+	info := r.Info
+	body := r.F.Body
+	return r.F.World(func(atom ast.Expr) (bool, bool) {
+		if id, isID := ast.Unparen(atom).(*ast.Ident); isID {
+			if v, isVar := info.Uses[id].(*types.Var); isVar && isBoolType(v.Type()) {
+				if def, _ := localDef(info, body, v); def != nil && c11IsTCPAssert(info, def) {
+					return okV, true
+				}
+			}
+		}
+		if be, isBin := ast.Unparen(atom).(*ast.BinaryExpr); isBin && (be.Op == token.EQL || be.Op == token.NEQ) && isNilIdent(info, be.Y) {
+			t := info.TypeOf(be.X)
+			if typeIs(t, "net", "Addr") {
+				return (be.Op == token.NEQ) == present, true
+			}
+			if p, isPtr := t.(*types.Pointer); isPtr && typeIs(p.Elem(), modulePkg, "ConnState") {
+				return (be.Op == token.NEQ) == present, true
+			}
+			if p, isPtr := t.(*types.Pointer); isPtr && typeIs(p.Elem(), "net", "TCPAddr") {
+				return (be.Op == token.NEQ) == okV, true // `if tcpAddr != nil` after `tcpAddr, _ := …`
+			}
+		}
+		return false, false
+	})
+}
+
+// c11AbsAddr evaluates expression e at point at to a set of {peer, standin, zero, other}.
+func c11AbsAddr(r *RuleCtx, at Pt, e ast.Expr, okV, present bool, depth int) map[string]bool {
+	info := r.Info
+	out := map[string]bool{}
+	if depth > 6 || e == nil {
+		out["other"] = true
+		return out
+	}
+	e = ast.Unparen(e)
+	switch x := e.(type) {
+	case *ast.SelectorExpr:
+		if x.Sel.Name == "IP" {
+			for k := range c11AbsAddr(r, at, x.X, okV, present, depth+1) {
+				out[k] = true
+			}
+			return out
+		}
+	case *ast.UnaryExpr:
+		if x.Op == token.AND {
+			if cl, ok := ast.Unparen(x.X).(*ast.CompositeLit); ok && typeIs(info.TypeOf(cl), "net", "TCPAddr") {
+				out["standin"] = true
+				return out
+			}
+		}
+	case *ast.TypeAssertExpr:
+		if c11IsTCPAssert(info, x) {
+			if okV {
+				out["peer"] = true
+			} else {
+				out["zero"] = true
+			}
+			return out
+		}
+	case *ast.CallExpr:
+		if isCall(info, x, "net.IPv4", "net.ParseIP") {
+			out["standin"] = true
+			return out
+		}
+		if fn := callee(info, x); fn != nil && fn.Pkg() != nil && fn.Pkg() == r.FI.Pkg.Types {
+			if d := r.C.P.DeclOf(fn); d != nil && d.Decl.Body != nil {
+				g := r.C.CtxOf(d)
+				n := 0
+				for _, pt := range g.F.Points() {
+					ret, ok := pt.Node().(*ast.ReturnStmt)
+					if !ok || len(ret.Results) != 1 {
+						continue
+					}
+					// reachable in this world?
+					if _, f := g.F.Reach(Query{From: g.Entry(), Inclusive: true, Target: func(q Pt) bool { return q == pt }, AvoidEdge: c11AddrWorld(g, okV, present)}); !f {
+						continue
+					}
+					n++
+					for k := range c11AbsAddr(g, pt, ret.Results[0], okV, present, depth+1) {
+						out[k] = true
+					}
+				}
+				if n == 0 {
+					out["other"] = true
+				}
+				return out
+			}
+		}
+	case *ast.Ident:
+		o, isVar := info.Uses[x].(*types.Var)
+		if !isVar || o.IsField() {
+			break
+		}
+		world := c11AddrWorld(r, okV, present)
+		isDef := func(q Pt) bool {
+			n := q.Node()
+			if n == nil {
+				return false
+			}
+			if assignsObj(info, n, o) {
+				return true
+			}
+			if vs, ok := n.(*ast.ValueSpec); ok {
+				for _, nm := range vs.Names {
+					if info.Defs[nm] == types.Object(o) {
+						return true
+					}
+				}
+			}
+			return false
+		}
+		nd := 0
+		for _, dp := range r.F.Points() {
+			if !isDef(dp) {
+				continue
+			}
+			if _, f := r.F.Reach(Query{From: []Pt{dp}, Target: func(q Pt) bool { return q == at }, Avoid: func(q Pt) bool { return q != at && isDef(q) }, AvoidEdge: world}); !f {
+				continue
+			}
+			if _, f := r.F.Reach(Query{From: r.Entry(), Inclusive: true, Target: func(q Pt) bool { return q == dp }, AvoidEdge: world}); !f {
+				continue
+			}
+			nd++
+			var rhs ast.Expr
+			switch d := dp.Node().(type) {
+			case *ast.AssignStmt:
+				for i, l := range d.Lhs {
+					if objOf(info, l) == types.Object(o) {
+						if len(d.Rhs) == len(d.Lhs) {
+							rhs = d.Rhs[i]
+						} else if len(d.Rhs) == 1 && i == 0 {
+							rhs = d.Rhs[0] // value of a comma-ok form
+						}
+					}
+				}
+			case *ast.ValueSpec:
+				for i, nm := range d.Names {
+					if info.Defs[nm] == types.Object(o) && i < len(d.Values) {
+						rhs = d.Values[i]
+					}
+				}
+				if rhs == nil {
+					out["zero"] = true
+					continue
+				}
+			}
+			if rhs == nil {
+				out["other"] = true
+				continue
+			}
+			for k := range c11AbsAddr(r, dp, rhs, okV, present, depth+1) {
+				out[k] = true
+			}
+		}
+		if nd == 0 {
+			// a parameter: evaluated at the call sites by the caller of this function? not followed – unknown
+			out["other"] = true
+		}
+		return out
+	}
+	out["other"] = true
+	return out
+}
 
 // R7: BucketSet enforces. With a constructor configured, Take / TakeContext succeed only as the answer of the
 // key's own limiter; without one they are no-ops; a full table refuses; a bucket is created exactly when the key
